@@ -137,46 +137,56 @@ def _rand_tx(rnd, big):
 
 
 def record_traces(seed, count, big):
-    """drive pycoin on random transactions; log what it did (no expectation is computed here)"""
+    """drive pycoin on random transactions; log what it did (no expectation is computed here).
+    -> (events, crashes): a codec that raises on a well-formed transaction is reported by the caller"""
     rnd = random.Random(seed)
     traces = []
+    crashes = []
     for t in range(count):
         sym = SYMS[t % 2]
-        Tx = D.network(sym).tx
         p = _rand_tx(rnd, big)
-        tx = D.build_tx(Tx, p, "set_witness" if t % 3 else "attr")
-        ev = {"sym": sym, "tx": p}
-        b = tx.as_bin()
-        ev["bytes"] = b
-        ev["stripped"] = tx.as_bin(include_witness_data=False)
-        ev["hash"] = tx.hash()
-        ev["w_hash"] = tx.w_hash()
-        ev["id"] = tx.id()
-        ev["w_id"] = tx.w_id()
-        # the unspents extension on some
-        us = None
-        if rnd.random() < 0.4:
-            us = tuple((max(1, _rand_u(rnd, 64)) if rnd.random() < 0.9 else 0, _rand_bytes(rnd, _rand_len(rnd, False))) for _ in p[1])
-            tx.set_unspents([Tx.TxOut(a, s) for a, s in us])
-            b = tx.as_bin(include_unspents=True)
-        ev["us"] = us
+        rnd2 = random.Random(rnd.getrandbits(64))      # the choices of one trace do not shift the next
+        try:
+            traces.append(_record_one(rnd2, sym, p, t))
+        except Exception as e:
+            crashes.append((sym, p, type(e).__name__, repr(e)[:200]))
+    return traces, crashes
+
+
+def _record_one(rnd, sym, p, t):
+    import io
+    Tx = D.network(sym).tx
+    tx = D.build_tx(Tx, p, "set_witness" if t % 3 else "attr")
+    ev = {"sym": sym, "tx": p}
+    b = tx.as_bin()
+    ev["bytes"] = b
+    ev["stripped"] = tx.as_bin(include_witness_data=False)
+    ev["hash"] = tx.hash()
+    ev["w_hash"] = tx.w_hash()
+    ev["id"] = tx.id()
+    ev["w_id"] = tx.w_id()
+    # the unspents extension on some
+    us = None
+    if rnd.random() < 0.4:
+        us = tuple((max(1, _rand_u(rnd, 64)) if rnd.random() < 0.9 else 0, _rand_bytes(rnd, _rand_len(rnd, False))) for _ in p[1])
+        tx.set_unspents([Tx.TxOut(a, s) for a, s in us])
+        b = tx.as_bin(include_unspents=True)
+    ev["us"] = us
+    ev["input"] = b
+    allow = True
+    if sym == "BTC" and rnd.random() < 0.2 and us is None:
+        # legacy parser on the stripped form
+        allow = False
+        b = ev["stripped"]
         ev["input"] = b
-        allow = True
-        if sym == "BTC" and rnd.random() < 0.2 and us is None:
-            # legacy parser on the stripped form
-            allow = False
-            b = ev["stripped"]
-            ev["input"] = b
-            import io
-            t2 = Tx.parse(io.BytesIO(b), allow_segwit=False)
-        else:
-            t2 = Tx.from_bin(b) if t % 2 else Tx.from_hex(b.hex())
-        ev["allow"] = allow
-        ev["parsed"] = D.project_tx(t2)
-        ev["punspents"] = D.project_unspents(t2)
-        ev["reser"] = t2.as_bin(include_unspents=True)
-        traces.append(ev)
-    return traces
+        t2 = Tx.parse(io.BytesIO(b), allow_segwit=False)
+    else:
+        t2 = Tx.from_bin(b) if t % 2 else Tx.from_hex(b.hex())
+    ev["allow"] = allow
+    ev["parsed"] = D.project_tx(t2)
+    ev["punspents"] = D.project_unspents(t2)
+    ev["reser"] = t2.as_bin(include_unspents=True)
+    return ev
 
 
 def _trace_json(ev):
@@ -191,7 +201,7 @@ def _trace_json(ev):
             "parsed": _abs_to_json(ev["parsed"]), "punspents": pu, "reser": D.rle(ev["reser"])}
 
 
-def validate_traces(ctx, tjson, workers=1):
+def validate_traces(ctx, tjson, workers=1, quiet=False):
     """-> (set of rejected 0-based indices, records printed by the trace spec keyed by tid)"""
     fd, path = tempfile.mkstemp(prefix="vf-c07-traces-", suffix=".json")
     with os.fdopen(fd, "w") as f:
@@ -206,8 +216,9 @@ def validate_traces(ctx, tjson, workers=1):
     if set(acc) & set(why) or not r.ok or loaded != [len(tjson)] or not set(acc) | set(why) <= set(range(len(tjson))):
         raise MachineryError("trace run inconsistent (sent %d traces, TLC loaded %s): %s" % (len(tjson), loaded, r.raw_tail[-5:]))
     rej = set(range(len(tjson))) - set(acc)
-    for i in rej:
-        ctx.log("trace %d rejected: %s" % (i, why.get(i, "parser did not terminate")))
+    for i in sorted(rej):
+        if not quiet:
+            ctx.log("trace %d rejected: %s" % (i, why.get(i, "parser did not terminate")))
     return rej, acc
 
 
@@ -257,9 +268,18 @@ def _traces(ctx):
     q = ctx.quick
     n = 400 if q else 2500
     evs = []
+    crashes = []
     # two seeds: everyday sizes, and sizes / counts beyond the enumerated grid
-    evs += record_traces(ctx.seed * 7919 + 7, n, False)
-    evs += record_traces(ctx.seed * 7919 + 70, n // 4, True)
+    for seed, cnt, big in ((ctx.seed * 7919 + 7, n, False), (ctx.seed * 7919 + 70, n // 4, True)):
+        e, c = record_traces(seed, cnt, big)
+        evs += e
+        crashes += c
+    for sym, p, exc, info in crashes:
+        ctx.case(None, 1)
+        ctx.fail("C07|trace|%s|exc=%s|%s" % (sym, exc, D.tx_class(p, "trace", any(i[4] for i in p[1]))),
+                 "pycoin raised %s while serialising / parsing / hashing a well-formed transaction" % info, {"tx": D._short(p)})
+    if not evs:
+        return
     tj = [_trace_json(e) for e in evs]
     chunks = [(i, min(len(tj), i + 700)) for i in range(0, len(tj), 700)]
     for (a, b) in chunks:
@@ -295,14 +315,24 @@ def _traces(ctx):
     runs[-1] = [runs[-1][0] ^ 1, runs[-1][1]] if len(runs) < 2 or runs[-2][0] != runs[-1][0] ^ 1 else [runs[-1][0] ^ 2, runs[-1][1]]
     bad3 = copy.deepcopy(g)
     bad3["tx"]["ins"][0]["seq"][1] ^= 1
-    rej, _ = validate_traces(ctx, [g, bad1, bad2, bad3])
-    ctx.selftest("trace_rejects_corrupted_field", rej == {1, 2, 3})
+    rej, _ = validate_traces(ctx, [g, bad1, bad2, bad3], quiet=True)
+    _selftest(ctx, "trace_rejects_corrupted_field", rej == {1, 2, 3})
+
+
+def _selftest(ctx, name, ok):
+    """a binding self-test runs a corrupted case through the real implementation; if the implementation is
+    already known to misbehave in this run (a violation was reported) a failed self-test is inconclusive,
+    not a machinery failure - the run must still end with exit 1"""
+    if ok or not ctx.violations:
+        ctx.selftest(name, ok)
+    else:
+        ctx.selftests[name] = "inconclusive (violations reported; the implementation misbehaves on the self-test case)"
 
 
 def run(ctx):
     q = ctx.quick
     only = getattr(ctx, "only", None)
-    W = 16
+    W = 4 if q else 8       # TLC evaluates the case grid once per worker: a few workers are faster than many here
     ctx.rule = ("replay: every abstract transaction / spendable of spec/TxGrid.tla (TLC enumerates; lemmas checked in every state) "
                 "executed on pycoin BTC and LTC; distinct_nontrivial = distinct (mode, BIP144?, #inputs, #outputs, script-length classes, "
                 "witness stack sizes) for transactions and (amount, script-length class, block index, spent) for spendables")
@@ -325,17 +355,17 @@ def run(ctx):
         tok = bad["bytes"]
         tok[0] = ("%02x" % (int(tok[0][:2], 16) ^ 1)) + tok[0][2:] if tok[0][0] != "*" else "*%02xx%s" % (int(tok[0][1:3], 16) ^ 1, tok[0].split("x")[1])
         f = D.check_tx_record(bad, "BTC")
-        ctx.selftest("replay_rejects_corrupted_expected_bytes", any("bytes-differ" in k for k, _, _ in f))
+        _selftest(ctx, "replay_rejects_corrupted_expected_bytes", any("bytes-differ" in k for k, _, _ in f))
         bad = copy.deepcopy(first)
         bad["txid"]["arg"] = bad["txid"]["arg"] + ["00"]
         f = D.check_tx_record(bad, "BTC")
-        ctx.selftest("replay_rejects_corrupted_id_term", any("|hash|" in k for k, _, _ in f))
+        _selftest(ctx, "replay_rejects_corrupted_id_term", any("|hash|" in k for k, _, _ in f))
     if not only or "sp" in only:
         first, _ = _replay(ctx, "MC_SpendableReplay", "MC_SpendableReplay_q" if q else "MC_SpendableReplay_t", "check_sp_record", ("BTC",), W, "sp")
         bad = copy.deepcopy(first)
         bad["text"][1]["v"] = [7]
         f = D.check_sp_record(bad, "BTC")
-        ctx.selftest("replay_rejects_corrupted_spendable_text", any("as_text" in k for k, _, _ in f))
+        _selftest(ctx, "replay_rejects_corrupted_spendable_text", any("as_text" in k for k, _, _ in f))
     # 4. code -> spec
     if not only or "traces" in only:
         _traces(ctx)
